@@ -8,13 +8,6 @@ Import ListNotations.
 Open Scope string_scope.
 Open Scope list_scope.
 
-(* the first-filter dictionary of a generation with state machine / class name X, namespace NS, author a, group g, brief b
-   (the two dates are not used by these files) *)
-Definition dict0 : list (string * string) :=
-  [(stag "__TAG_SM_NAME_UPPER__", "X"); (stag "__TAG_SM_NAME_SMALL_CAMEL__", "x"); (stag "__TAG_SM_NAME_SNAKE__", "x"); (stag "__TAG_SM_NAME__", "X");
-   (stag "__TAG_CLASS_NAME__", "X"); (stag "__TAG_CLASS_NAME_SNAKE__", "x"); (stag "__TAG_PyIFGen_NAME__", "Transition Table"); (stag "__TAG_NAMESPACE__", "NS");
-   (stag "__TAG_AUTHOR__", "a"); (stag "__TAG_GROUP__", "g"); (stag "__TAG_BRIEF__", "b"); (stag "__TAG_DECLSPEC_DLL_EXPORT__", "")].
-
 Lemma tagfree_no_generator_tag s : tagfree s = true -> no_generator_tag s = true.
 Proof.
   unfold no_generator_tag, tags_of.
